@@ -140,6 +140,42 @@ class Gauge:
         return 'Gauge(%r)' % (self.readings,)
 
 
+class Record:
+    """user object with a catch-all __getattr__ (unknown fields read as None) and reflected operators"""
+    def __init__(self, **kw):
+        self.__dict__.update(kw)
+
+    def __getattr__(self, name):
+        return None
+
+    def __eq__(self, other):
+        return isinstance(other, Record) and self.__dict__ == other.__dict__
+
+    def __hash__(self):
+        return hash(tuple(sorted(self.__dict__.items())))
+
+    def __radd__(self, other):
+        return ('radd', type(other).__name__)
+
+    def __rmul__(self, other):
+        return ('rmul', type(other).__name__)
+
+    def __rsub__(self, other):
+        return ('rsub', type(other).__name__)
+
+    def __ror__(self, other):
+        return ('ror', type(other).__name__)
+
+    def __rpow__(self, other):
+        return ('rpow', type(other).__name__)
+
+    def __repr__(self):
+        return 'Record(%s)' % ', '.join('%s=%r' % kv for kv in sorted(self.__dict__.items()))
+
+
+REC = Record(n=1)
+
+
 class Plain:
     """user object without dunders"""
     def __repr__(self):
@@ -148,7 +184,8 @@ class Plain:
 
 PLAIN = Plain()
 VALUES = {'int': [3, 0, -2], 'float': [2.5, -1.5], 'bool': [True, False], 'str': ['ab', ''], 'list': [[1, 2], []], 'tuple': [(1, 2), ()],
-          'dict': [{'a': 1}], 'set': [{1, 2}], 'none': [None], 'complex': [1 + 2j], 'money': [Money(5)], 'card': [Card(11, 'hearts')], 'gauge': [Gauge([4, 7]), Gauge([])], 'plain': [PLAIN], 'nan': [float('nan')], 'odd': [Odd()]}
+          'dict': [{'a': 1}], 'set': [{1, 2}], 'none': [None], 'complex': [1 + 2j], 'money': [Money(5)], 'card': [Card(11, 'hearts')], 'gauge': [Gauge([4, 7]), Gauge([])], 'record': [REC], 'reclist': [[REC, 1]], 'dict2': [{'a': 2, 'b': 3}],
+          'frozenset': [frozenset({1, 3})], 'plain': [PLAIN], 'nan': [float('nan')], 'odd': [Odd()]}
 BINOPS = {'add': operator.add, 'sub': operator.sub, 'mul': operator.mul, 'matmul': operator.matmul, 'truediv': operator.truediv,
           'floordiv': operator.floordiv, 'mod': operator.mod, 'divmod': divmod, 'pow': pow, 'lshift': operator.lshift,
           'rshift': operator.rshift, 'and': operator.and_, 'xor': operator.xor, 'or': operator.or_,
